@@ -700,6 +700,39 @@ struct Gen {
     for (auto& k : e->kids) if (mentions(k, n)) return true;
     return false;
   }
+  // near-miss for C02: the same bound name declared in two SIBLING scopes over domains of different element
+  // types; the second body is written for the FIRST type. A sound checker rejects it (unless the types agree).
+  EP siblingConfusion(Scope& sc, int d) {
+    const TyP t1 = rng.chance(1, 2) ? tS(randTy(0)) : randTy(1);
+    TyP t2 = randTy(rng.range(0, 1));
+    if (same(t1, t2)) t2 = tT({ t2, t2 });
+    if (sc.mult * (maxCard(t1) + maxCard(t2)) > 4000) return nullptr;
+    auto dom1 = genSet(t1, sc, d - 1, T::FORALL);
+    auto dom2 = genSet(t2, sc, d - 1, T::FORALL);
+    const auto name = fresh(sc);
+    Scope in = sc; in.mult *= std::max(maxCard(t1), maxCard(t2));
+    in.vars.push_back({ name, t1 });
+    EP body1, body2;
+    for (int tries = 0; tries < 6; ++tries) { body1 = genLogic(in, std::max(1, d - 1)); if (mentions(body1, name)) break; }
+    for (int tries = 0; tries < 6; ++tries) { body2 = genLogic(in, std::max(1, d - 1)); if (mentions(body2, name)) break; }
+    if (!mentions(body2, name)) body2 = mk(T::EQUAL, { mkName(T::ID_LOCAL, name), mkName(T::ID_LOCAL, name) });
+    const auto v = [&] { return mkName(T::ID_LOCAL, name); };
+    // first scope over t1 (well-typed), second scope over t2 with a body typed for t1
+    EP first, second;
+    switch (rng.range(0, 2)) {
+    default:
+    case 0: first = mk(rng.chance(1, 2) ? T::FORALL : T::EXISTS, { v(), dom1, body1 }); break;
+    case 1: first = mk(T::EQUAL, { mk(T::NT_DECLARATIVE_EXPR, { v(), dom1, body1 }), dom1 }); break;
+    case 2: first = mk(T::SUBSET_OR_EQ, { mk(T::NT_IMPERATIVE_EXPR, { v(), mk(T::ITERATE, { v(), dom1 }) }), dom1 }); break;
+    }
+    switch (rng.range(0, 1)) {
+    default:
+    case 0: second = mk(rng.chance(1, 2) ? T::FORALL : T::EXISTS, { v(), dom2, body2 }); break;
+    case 1: second = mk(T::EQUAL, { mk(T::NT_DECLARATIVE_EXPR, { v(), dom2, body2 }), dom2 }); break;
+    }
+    return mk(T::AND, { first, second });
+  }
+
   EP enumConfusion(Scope& sc, int d) {
     const TyP t1 = randTy(rng.range(0, 1));
     const TyP t2 = rng.chance(2, 3) ? tS(randTy(0)) : randTy(1);
@@ -1206,6 +1239,7 @@ int main(int argc, char** argv) {
       else if (r < 90) { e = g.genInt(sc, d, T::INTERRUPT); cls = "int"; }
       else { TyP t = g.randTy(2); if (!g.elemSource(t, sc)) t = tS(t); e = g.gen(t, sc, d, T::INTERRUPT); cls = "any"; }
       if (gC02 && rng.chance(1, 8)) { if (auto c = g.enumConfusion(sc, d)) { e = c; cls = "confusion"; } }
+      else if (gC02 && rng.chance(1, 8)) { if (auto c = g.siblingConfusion(sc, d)) { e = c; cls = "confusion-sibling"; } }
       if (e->id == T::LIT_EMPTYSET) continue;           // a lone ∅ crashes the type checker (C03/C04 finding)
       if (rng.chance(gC02 ? 3 : 1, 10)) { e = mutate(rng, e); cls = "mutant"; }
       if (rng.chance(1, 10)) { e = mk(T::PUNC_DEFINE, { G("D9"), e }); cls += "+define"; }
